@@ -138,7 +138,18 @@ int main(int argc, char** argv)
         else split = rng.uniform(R0, Rmax);
         try {
             PolarGrid g(radii, angles, split);
-            dump_grid(g, split, rng, c % 4 == 0, 3);
+            if (c % 5 == 2) {
+                // object histories: the grid that is queried is a COPY whose source object is afterwards overwritten by a different grid,
+                // or an element of a vector that has re-allocated, or a move target — its queries must still agree with ITS OWN arrays
+                std::vector<double> r2 = {0.2, 0.5, 0.6, 1.1, 1.9}, a2 = {0.0, 1.0, M_PI, M_PI + 1.0, 2 * M_PI};
+                PolarGrid other(r2, a2, std::nullopt);
+                int hk = rng.range(0, 3);
+                if (hk == 0) { PolarGrid snap = g; g = other; dump_grid(snap, split, rng, false, 3); }
+                else if (hk == 1) { PolarGrid snap(other); snap = g; g = other; dump_grid(snap, split, rng, false, 3); }
+                else if (hk == 2) { std::vector<PolarGrid> keep; keep.push_back(g); g = other; for (int q = 0; q < 5; q++) keep.push_back(other); dump_grid(keep[0], split, rng, false, 3); }
+                else { PolarGrid tmp = g; PolarGrid snap = std::move(tmp); tmp = other; g = other; dump_grid(snap, split, rng, false, 3); }
+            }
+            else dump_grid(g, split, rng, c % 4 == 0, 3);
         }
         catch (const std::exception& e) {
             printf("G-throw nr=%d nt=%d %s\n", nr, nt, e.what());
